@@ -2,6 +2,7 @@
 
 from vsg import token, violation
 from vsg.rule_group import case
+from vsg.rules import case_utils
 
 lInterfaceTokens = []
 lInterfaceTokens.append(token.interface_unknown_declaration.identifier)
@@ -190,6 +191,8 @@ def procedure_keyword_found(oToken, bReturn):
 
 
 def interface_case_mismatch(sToken, lInterfaces, lInterfacesLower):
+    if case_utils.does_not_contain_any_alpha_characters(sToken):
+        return False
     if sToken.lower() in lInterfacesLower and sToken not in lInterfaces:
         return True
     return False
